@@ -256,16 +256,26 @@ fn rdata_vouched(b: &[u8], rtype: u16, class: u16, start: usize, end: usize) -> 
     }
 }
 
-fn opt_rdata_ok(b: &[u8], start: usize, end: usize) -> bool {
+/// OPT RDATA: `Some(true)` = option TLVs tile the RDATA and every option is one whose content the
+/// reference can vouch for (NSID with the empty payload a request carries, RFC 5001 2.1; codes
+/// 65001..=65534, reserved for local/experimental use and therefore opaque); `Some(false)` = the
+/// TLVs tile but an option with a defined inner format is present (ECS, cookie, ... may be
+/// malformed inside: RFC 7871 7.1.2 wants FORMERR then); `None` = the TLVs do not tile.
+fn opt_rdata_ok(b: &[u8], start: usize, end: usize) -> Option<bool> {
     let mut p = start;
+    let mut vouched = true;
     while p < end {
         if p + 4 > end {
-            return false;
+            return None;
         }
+        let code = u16::from_be_bytes([b[p], b[p + 1]]);
         let len = u16::from_be_bytes([b[p + 2], b[p + 3]]) as usize;
+        if !((code == 3 && len == 0) || (65001..=65534).contains(&code)) {
+            vouched = false;
+        }
         p += 4 + len;
     }
-    p == end
+    (p == end).then_some(vouched)
 }
 
 /// Walk a request (>= 12 bytes).
@@ -338,8 +348,10 @@ pub fn parse(b: &[u8]) -> Parsed {
                         if !name.labels.is_empty() || name.has_pointer {
                             worse(&mut cls, ParseClass::Grey, "opt-owner-not-root");
                         }
-                        if !opt_rdata_ok(b, rs, re) {
-                            worse(&mut cls, ParseClass::Grey, "opt-rdata");
+                        match opt_rdata_ok(b, rs, re) {
+                            Some(true) => {}
+                            Some(false) => worse(&mut cls, ParseClass::Grey, "opt-option-not-validated"),
+                            None => worse(&mut cls, ParseClass::Grey, "opt-rdata"),
                         }
                     }
                     250 | 24 => {
